@@ -69,7 +69,7 @@ pub fn panic_class(p: &str) -> String {
             last_digit = false;
         }
     }
-    let m: String = m.chars().take(48).collect();
+    let m: String = m.chars().take(32).collect();
     format!("{}:{}", file, m.replace(' ', "_"))
 }
 
